@@ -412,6 +412,9 @@ pub fn run_prop(ctx: &Ctx, sink: &mut Sink) {
         // well-formed patterns on which a backtracking matcher gives up on the 100-character name
         vec!["t", "-name", "*a*a*a*a*a*b"], vec!["t", "-regextype", "posix-extended", "-regex", ".*/(a|aa)+b"],
         vec!["t", "-iname", "*A*a*A*a*A*b", "-o", "-print"], vec!["t", "-path", "*a*a*a*a*a*a*b"],
+        // an action without a command, with another terminator further on
+        vec!["t", "-exec", ";", ";"], vec!["t", "-print", "-exec", ";", ";"], vec!["t", "-exec", ";", "-print", ";"], vec!["t", "-execdir", ";", "-exec", "cp", "ref", "trace", ";"],
+        vec!["t", "-exec", "+", "{}", "+"], vec!["t", "-exec", ";", "{}", "+"],
         // an output file that refuses every write
         vec!["t", "-fprintf", "/dev/full", "%p\\n"], vec!["t", "-fprint", "/dev/full"], vec!["t", "-fprint0", "/dev/full"], vec!["t", "-fls", "/dev/full"],
         vec!["t", "-fprintf", "/dev/full", "%-30p|%s"],
